@@ -284,13 +284,15 @@ def _same_field(a, b):
     if a is None or b is None:
         return True
     a2, b2 = str(a).replace("len:", ""), str(b).replace("len:", "")
-    return a2 == b2 or a2.split(".")[-1] == b2.split(".")[-1] or a2.split(".")[0] == b2.split(".")[0]
+    return a2 == b2 or a2.split(".")[-1] == b2.split(".")[-1] or a2.split(".")[0] == b2.split(".")[0] or a2.endswith("_" + b2) or b2.endswith("_" + a2)
 
 
 def diff(w, r, path=""):
     """First mismatch between a writer shape and a reader/spec shape, or None."""
     w, r = _drop(w), _drop(r)
-    for i in range(max(len(w), len(r))):
+    i = -1
+    while i + 1 < max(len(w), len(r)):
+        i += 1
         where = "%sitem %d" % (path, i + 1)
         if i >= len(w):
             return "%s: writer ends, other side continues with %s" % (where, fmt_shape(r[i:i + 1]))
